@@ -5,10 +5,13 @@
 cd /verif
 declare -A MAP=( [a8fd6d1]="C10" [f8d290e]="C14" [5d5b55d]="C14" [aa46e72]="C08" [463e084]="C08" [5311227]="C05"
  [a4e14c3]="C13" [285ab64]="C13 C15" [7dd9f59]="C13" [2101793]="C18" [7014154]="C12" [d363189]="C12 C04"
- [d40452e]="C05" [711f6a9]="C05" [037e433]="C19" [71681da]="C15" [ebe3e0d]="C06" [1845044]="C02" [9031832]="C02" [56f5ba8]="C02" [61d4b1f]="C02" [3aa439f]="C11" [72c4b89]="C11" [3ff6b5e]="C13 C19" [b759d39]="C13" [c0e6311]="C18" [d09707b]="C13" [c1ac038]="C13" [0334a10]="C15 C05" [07f669b]="C18" [6728e09]="C13" [eba3f95]="C18" )
+ [d40452e]="C05" [711f6a9]="C05" [037e433]="C19" [71681da]="C15" [ebe3e0d]="C06" [1845044]="C02" [9031832]="C02" [56f5ba8]="C02" [61d4b1f]="C02" [3aa439f]="C11" [72c4b89]="C11" [3ff6b5e]="C13 C19" [b759d39]="C13" [c0e6311]="C13 C18" [d09707b]="C13" [c1ac038]="C13" [0334a10]="C15 C05" [07f669b]="C18" [6728e09]="C13" [eba3f95]="C18" )
+# fixes whose defect needs the thorough tier (deviation bound 2, or bound 1 of a scenario the quick tier runs at 0)
+THOROUGH=" 6728e09 eba3f95 07f669b "
 LIST="${@:-${!MAP[@]}}"
 for c in $LIST; do
   echo "=== revert $c ($(git -C /repo log -1 --format=%s $c | cut -c1-70)) -> ${MAP[$c]}"
   if ! git -C /repo apply --check /verif/selftest/reverts/$c.diff 2>/dev/null; then echo "  (reverse patch no longer applies on HEAD: later fixes touch the same lines)"; continue; fi
-  SKIP_REPO_TESTS=1 TIER=${TIER:-} selftest/run.sh selftest/reverts/$c.diff ${MAP[$c]} 2>&1 | sed 's/^/  /' | cut -c1-200
+  T="${TIER:-}"; case "$THOROUGH" in *" $c "*) T=thorough;; esac
+  SKIP_REPO_TESTS=1 TIER=$T selftest/run.sh selftest/reverts/$c.diff ${MAP[$c]} 2>&1 | sed 's/^/  /' | cut -c1-200
 done
